@@ -59,14 +59,14 @@ def run(tier, seed):
         if not ok:
             rep.violation(fn, cls, dict(detail, got=got, expected=want))
 
-    for kind in ("onset", "detect", "notes", "tempo", "align", "melody"):
+    for kind in ("onset", "detect", "notes", "aor", "tempo", "align", "melody"):
         cfg = "MC_C04_%s%s" % (kind, "_T" if thorough else "")
         res = tlc.run("MC_C04", cfg=cfg, timeout=3400, heap="8g")
         rows = res["rows"]["ROW"]
         if len(rows) * 2 != res["distinct"]:
             raise Machinery("%s: %d rows for %d states" % (cfg, len(rows), res["distinct"]))
         ev.tlc(cfg, res, "definitional model; invariant Sane (ranges, nestings)")
-        step = 1 if thorough or kind in ("tempo", "detect") else (3 if kind in ("notes", "melody") else 2)
+        step = 1 if thorough or kind in ("tempo", "detect") else (3 if kind in ("notes", "melody", "aor") else 2)
         for k, r in enumerate(rows):
             if (k + seed) % step:
                 continue
@@ -104,6 +104,12 @@ def run(tier, seed):
                     check("transcription.offset_precision_recall_f1",
                           lambda: tr.offset_precision_recall_f1(ri, ei, offset_ratio=ratio, offset_min_tolerance=1 / 16.0, strict=i["strict"], beta=beta),
                           [fr(o["offset"]["p"]), fr(o["offset"]["r"]), fr(o["offset"]["f"])], d)
+            elif kind == "aor":
+                ri, _ = notes_arrays(i["ref"])
+                ei, _ = notes_arrays(i["est"])
+                mm = [(a - 1, b - 1) for a, b in i["m"]]
+                check("transcription.average_overlap_ratio", lambda: me.transcription.average_overlap_ratio(ri, ei, mm), [fr(o["aor"])],
+                      {"ref": i["ref"], "est": i["est"], "matching": mm})
             elif kind == "tempo":
                 if o["tie"]:
                     skipped += 1
